@@ -138,7 +138,8 @@ ClockRef(m, cfg) ==
 (* remote_ip / local_ip / not: CIDR membership of the connection address.  *)
 (***************************************************************************)
 IPMsgs == [remote : {"10.0.0.1", "10.0.1.1", "192.168.1.1", "2001:db8::1", "2001:db9::1"}]
-IPCfgs == [which : {"remote_ip", "not_remote_ip"}, ranges : {<<"10.0.0.0/24">>, <<"10.0.0.0/8", "2001:db8::/32">>, <<"2001:db8::1">>, <<"0.0.0.0/0">>}]
+\* "not_split": `not` over several matcher sets, one per range (not [A, B] = neither A nor B)
+IPCfgs == [which : {"remote_ip", "not_remote_ip", "not_split"}, ranges : {<<"10.0.0.0/24">>, <<"10.0.0.0/8", "2001:db8::/32">>, <<"2001:db8::1">>, <<"0.0.0.0/0">>}]
 InRange(ip, r) == CASE r = "10.0.0.0/24" -> ip = "10.0.0.1"
                     [] r = "10.0.0.0/8" -> ip \in {"10.0.0.1", "10.0.1.1"}
                     [] r = "2001:db8::/32" -> ip = "2001:db8::1"
@@ -168,11 +169,20 @@ WGRef(m, cfg) == IF /\ m.reserved = WGReserved(cfg)
 (***************************************************************************)
 DNSMsgs == [qr : {0, 1}, rcode : {0, 3}, z : {0, 1}, qd : {0, 1}, name : {"example.com.", "sub.example.com.", "other.org."},
             qtype : {"A", "MX"}, lenfield : {"exact", "short", "long"}]
-DNSRule(n, t) == [name |-> n, type |-> t]
-DNSCfgs == [allow : {<<>>, <<DNSRule("example.com.", "")>>, <<DNSRule("", "A")>>},
-            deny : {<<>>, <<DNSRule("example.com.", "")>>, <<DNSRule("", "MX")>>, <<DNSRule("other.org.", "A")>>},
+DNSRule(n, t) == [name |-> n, type |-> t, name_regexp |-> "", type_regexp |-> ""]
+\* rules with regular expressions; the pattern shapes are restated below
+DNSRuleRe(nre, tre) == [name |-> "", type |-> "", name_regexp |-> nre, type_regexp |-> tre]
+DNSCfgs == [allow : {<<>>, <<DNSRule("example.com.", "")>>, <<DNSRule("", "A")>>, <<DNSRuleRe("^sub[.]", "")>>},
+            deny : {<<>>, <<DNSRule("example.com.", "")>>, <<DNSRule("", "MX")>>, <<DNSRule("other.org.", "A")>>,
+                    <<DNSRuleRe("[.]org[.]$", "")>>, <<DNSRuleRe("", "^M")>>},
             default_deny : BOOLEAN, prefer_allow : BOOLEAN]
-RuleHit(r, m) == (r.name = "" \/ r.name = m.name) /\ (r.type = "" \/ r.type = m.qtype)
+DNSNameRe(p, n) == CASE p = "" -> TRUE
+                     [] p = "^sub[.]" -> n = "sub.example.com."
+                     [] p = "[.]org[.]$" -> n = "other.org."
+DNSTypeRe(p, t) == CASE p = "" -> TRUE
+                     [] p = "^M" -> t = "MX"
+RuleHit(r, m) == /\ (r.name = "" \/ r.name = m.name) /\ (r.type = "" \/ r.type = m.qtype)
+                 /\ DNSNameRe(r.name_regexp, m.name) /\ DNSTypeRe(r.type_regexp, m.qtype)
 Hit(rules, m) == \E r \in Range(rules) : RuleHit(r, m)
 DNSFilter(m, cfg) ==
   LET a == Hit(cfg.allow, m)
@@ -426,7 +436,7 @@ Vectors(p) ==
     [] p = "clock"    -> { Vec(p, "tcp", c, m, 0) : m \in ClockMsgs, c \in ClockCfgs }
     [] p = "ip"       -> { Vec(p, "tcp", c, m, 0) : m \in IPMsgs, c \in IPCfgs }
     [] p = "wireguard" -> { Vec(p, "udp", c, m, 0) : m \in WGMsgs, c \in WGCfgs }
-    [] p = "dns"      -> { Vec(p, n, c, m, t) : m \in { x \in DNSMsgs : Tier # "quick" \/ (x.rcode + x.z + x.qr <= 1 /\ x.name # "sub.example.com.") },
+    [] p = "dns"      -> { Vec(p, n, c, m, t) : m \in { x \in DNSMsgs : Tier # "quick" \/ (x.rcode + x.z + x.qr <= 1 /\ (x.name # "sub.example.com." \/ (x.qtype = "A" /\ x.rcode + x.z + x.qr = 0 /\ x.qd = 1 /\ x.lenfield = "exact"))) },
                                                  c \in DNSCfgs, n \in {"tcp", "udp"}, t \in {0} }
     [] p = "rdp"      -> { Vec(p, "tcp", c, m, 0) : m \in { x \in RDPMsgs : Tier # "quick" \/ x.len # "minus1" }, c \in RDPCfgs }
     [] p = "http"     -> { Vec(p, "tcp", c, m, 0) : m \in HTTPMsgs, c \in HTTPCfgs }
